@@ -61,6 +61,10 @@ _CSV = ListHandler()
 def _prepare_loggers():
     # another suite in this process may have switched logging off globally; the CSV trace IS a logger
     logging.disable(logging.NOTSET)
+    # ... and may have created the repository's loggers (ILPScheduler, Workload, ...) at DEBUG level on stdout: quiet them
+    for nm, other in list(logging.root.manager.loggerDict.items()):
+        if isinstance(other, logging.Logger) and nm != "Simulator_CSV" and other.handlers and other.level < logging.CRITICAL:
+            other.setLevel(logging.CRITICAL)
     lg = logging.getLogger("Simulator_CSV")
     lg.disabled = False
     lg.handlers = [_CSV]
@@ -200,6 +204,9 @@ class Recording(BaseScheduler):
         finally:
             run.in_policy = False
         run.record_decision(sim_time, placements)
+        if hasattr(run, "mon"):
+            # where in the stream of observations the decision was taken (oracles: which decision a start carries out)
+            run.mon.append({"ev": "decision", "k": len(run.decisions) - 1, "time": us(sim_time)})
         return placements
 
 
